@@ -108,6 +108,34 @@ def accessor(ctx, qn, col):
             if c not in distinct:
                 distinct.append(c)
         if not distinct and not others:
+            # a row handed out by its fixed POSITION (the first bar: .iat[0] / .iloc[0]) answers "at or before dt" only where the path has established that this bar is
+            # not later than dt: index[k] <= dt (or dt == index[k]).  `dt <= index[0]` establishes the opposite for every dt before the first bar.
+            fixed = [s_ for s_ in T.subterms(v) if s_[0] == 'sub' and s_[2][0] == 'num' and s_[1][0] == 'attr' and s_[1][2] in ('iat', 'iloc')
+                     and any(z_ == A('self', 'asset_bid_ask_frames') for z_ in T.subterms(s_[1]))]
+            if fixed and len({f_[2] for f_ in fixed}) == 1:
+                k_ = fixed[0][2]
+                stamp = lambda t_: t_[0] == 'sub' and t_[2] == k_ and t_[1][0] == 'attr' and t_[1][2] == 'index'
+                dtv = V('dt')
+                established = False
+                for c_, val_, _ in p.conds:
+                    if c_[0] != 'cmp':
+                        continue
+                    a_, b_ = c_[2], c_[3]
+                    if c_[1] == '<=' and stamp(a_) and b_ == dtv and val_:
+                        established = True          # index[k] <= dt
+                    if c_[1] == '<' and a_ == dtv and stamp(b_) and not val_:
+                        established = True          # not (dt < index[k])
+                    if c_[1] == '==' and val_ and ((stamp(a_) and b_ == dtv) or (stamp(b_) and a_ == dtv)):
+                        established = True
+                from ..lib import read_marker
+                if not established and read_marker(ctx, p):
+                    ctx.violation('C06.S1', '%s looks up the last row at or before dt' % qn, fn.site(),
+                                  'READ: on path [%s] the bar at position %s is handed out without the path having established that it is not later than dt: a query before '
+                                  'that bar is answered with a price of the future' % (cond_str(p)[:100], fmt(k_)), key='C06.S1|%s|method' % qn)
+                    continue
+                if established:
+                    ctx.holds('C06.S1', '%s hands out the bar at position %s only where that bar is not later than dt [%s]' % (qn, fmt(k_), cond_str(p)[:60]), fn.site())
+                    continue
             # the row is found some other way (a streaming cursor, a bisect over a list, ...): not read by this rule
             ctx.undecided('C06.S1', '%s locates the row by one get_indexer call [%s]' % (qn, cond_str(p)[:60]), fn.site(), 'no index lookup of the recognised family on this path')
             continue
